@@ -9,7 +9,7 @@ COMMON_TRUST = [
     "machine integers as mathematical integers (overflow outside the claim; counters assumed < 2^20 where arithmetic occurs)",
 ]
 
-BROKER_H = ["eventlogger/broker_state.go", "eventlogger/broker_ops.go", "eventlogger/c02.go", "eventlogger/c01_c07_c20.go", "eventlogger/c14.go"]
+BROKER_H = ["eventlogger/broker_state.go", "eventlogger/broker_ops.go", "eventlogger/c02.go", "eventlogger/c01_c07_c20.go", "eventlogger/c14.go", "eventlogger/c04.go"]
 
 PROPS = {
     "C02": dict(
@@ -103,5 +103,14 @@ PROPS["C13"] = dict(
     jobs=[dict(pkg="./sinks/writer", harness=["sinks/writer.go"], entries=r"^H_C13_writer", params=dict(quick=dict(F=2), thorough=dict(F=3)))],
     must_reach=["C13.writer.rejected", "C13.writer.ok", "C13.writer.failed"],
     bounds=dict(quick="<=2 formats", thorough="<=3 formats"),
+    trusted_base=COMMON_TRUST,
+)
+PROPS["C04"] = dict(
+    level="other",
+    explanation="Lockset analysis with solver-decided feasibility: every ordered pair of the 12 Broker API calls is executed symbolically as two concurrent regions from a common pre-state; the executor logs every load/store of every heap cell reachable from shared objects together with the set of sync locks held (mode R/W); two accesses to overlapping cells, at least one a write, with no common lock held exclusively by one side, on a feasible pair of paths = race candidate, which is then replayed natively under go test -race.",
+    jobs=[dict(harness=BROKER_H, entries=r"^H_C04_", params=dict(quick={}, thorough={}), shards=dict(quick=16, thorough=16))],
+    must_reach=["C04.pairs.end"],
+    bounds=dict(quick="all 12x12 ordered API pairs on a registry with 2 nodes, <=2 pipelines of one type, a second type; one Send's internal goroutines on one schedule", thorough="same"),
+    assumptions=["a data race is a pairwise notion: pairwise freedom from a common pre-state; happens-before only through sync locks, go statements and channel operations of the library itself", "StopTimeAt (test helper) excluded"],
     trusted_base=COMMON_TRUST,
 )
